@@ -17,6 +17,7 @@ rounding depends on the conditioning of the system (interval ratios); no bound i
 tolerance scaled by the interval ratio (see `PARTIAL` of C02).
 -/
 import NdInterp.Props.C01
+import NdInterp.Lemmas.Thomas
 
 namespace NdInterp
 
@@ -149,6 +150,15 @@ omit [LinearOrder F] [IsStrictOrderedRing F] in
 theorem splEvalFl_zero (xl xr yl yr a b x : F) :
     splEvalFl xl xr yl yr a b x 0 0 0 0 0 0 0 0 0 0 0 0 0 = splEvalExact xl xr yl yr a b x := by
   simp [splEvalFl, splEvalExact]
+
+omit [LinearOrder F] [IsStrictOrderedRing F] in
+/-- `splEvalExact` is the expression of the model's `splineEvalAt` on one lane (which `FT_spl_eval` ties to the source text) -/
+theorem C02_eval_exact_is_model (x xL xR yL yR aL bL : F) :
+    (let t := (x - xL) / (xR - xL)
+     Lanes.map4 (V := F) (fun yLeft yRight aLeft bLeft =>
+       (c1 - t) * yLeft + t * yRight + t * (c1 - t) * (aLeft * (c1 - t) + bLeft * t)) yL yR aL bL)
+      = splEvalExact xL xR yL yR aL bL x := by
+  simp [splEvalExact, map4_scalar, c1]
 
 /-- **C02_eval_rounding**: inside the interval the rounded segment evaluation is within `102·u·M` of the exact one -/
 theorem C02_eval_rounding (xl xr yl yr a b x u M d1 d2 d3 d4 d5 d6 d7 d8 d9 d10 d11 d12 d13 : F)
